@@ -120,11 +120,22 @@ def setup_all():
 
 # ---------------------------------------------------------------- proof stage
 
+# further statement files that belong to a property (built, listed and checked together with Props/<prop>.v)
+EXTRA_PROPS = {"C18": ["C18Float"], "C12": ["C12Atomic"], "C17": ["C17SkipList"]}
+
+
+def props_files(prop):
+    return [prop] + [f for f in EXTRA_PROPS.get(prop, []) if os.path.exists(os.path.join(COQ, "Props", f + ".v"))]
+
+
 def theorems_of(prop):
-    path = os.path.join(COQ, "Props", prop + ".v")
-    src = open(path).read()
-    src = re.sub(r"\(\*.*?\*\)", "", src, flags=re.S)
-    return re.findall(r"^\s*(?:Theorem|Corollary)\s+([A-Za-z_][\w']*)", src, flags=re.M)
+    """[(file, theorem)] of every statement file of the property"""
+    out = []
+    for f in props_files(prop):
+        src = open(os.path.join(COQ, "Props", f + ".v")).read()
+        src = re.sub(r"\(\*.*?\*\)", "", src, flags=re.S)
+        out += [(f, t) for t in re.findall(r"^\s*(?:Theorem|Corollary)\s+([A-Za-z_][\w']*)", src, flags=re.M)]
+    return out
 
 
 def scan_forbidden():
@@ -158,8 +169,8 @@ def proof_stage(prop):
            "checker_cmd": "make -C coq Props/%s.vo (coqc 8.16.1, full .vo build) + Print Assumptions for each theorem" % prop}
     thms = theorems_of(prop)
     res["obligations"] = len(thms)
-    res["theorems"] = thms
-    ok, out = coq_build(["Props/%s.vo" % prop], timeout=2400)
+    res["theorems"] = [t for _, t in thms]
+    ok, out = coq_build(["Props/%s.vo" % f for f in props_files(prop)], timeout=2400)
     if not ok:
         m = re.findall(r'File "([^"]+)", line (\d+)[^\n]*\n(Error:[^\n]*(?:\n[^\n]+){0,3})', out)
         res["errors"].append("coq build failed: " + ("; ".join("%s:%s %s" % (a, b, c.replace("\n", " ")) for a, b, c in m) or out[-800:]))
@@ -171,9 +182,10 @@ def proof_stage(prop):
     os.makedirs(tmpd, exist_ok=True)
     f = os.path.join(tmpd, "PA_%s.v" % prop)
     with open(f, "w") as fh:
-        fh.write("From SDB Require Import Props.%s.\n" % prop)
-        for t in thms:
-            fh.write('Goal True. idtac "@@THM %s". exact I. Qed.\nPrint Assumptions %s.\n' % (t, t))
+        for f2 in props_files(prop):
+            fh.write("From SDB Require Props.%s.\n" % f2)
+        for f2, t in thms:
+            fh.write('Goal True. idtac "@@THM %s". exact I. Qed.\nPrint Assumptions SDB.Props.%s.%s.\n' % (t, f2, t))
     rc, out = sh(["coqc", "-Q", COQ, "SDB", f], timeout=600)
     if rc != 0:
         res["errors"].append("Print Assumptions run failed: " + out[-500:])
@@ -186,7 +198,7 @@ def proof_stage(prop):
             res["axioms"][name] = []
             res["discharged"] += 1
             continue
-        axs = re.findall(r"^([A-Za-z_][\w\.']*)\s*:", body, flags=re.M)
+        axs = [a for a in re.findall(r"^([A-Za-z_][\w\.']*)\s*:", body, flags=re.M) if a != "Axioms"]
         res["axioms"][name] = axs
         notallowed = [a for a in axs if a not in ALLOWED_AXIOMS and a.split(".")[-1] not in ALLOWED_AXIOMS]
         if notallowed:
@@ -355,13 +367,20 @@ def standard_build(res, need_go=True, need_ocaml=True):
         if res.tier == "thorough" and not res.proof["errors"]:
             # independent re-check of the compiled theorems and everything they depend on (the model, the proofs, the
             # standard library files they load), with the list of axioms of the whole context
-            rc, out = sh(["coqchk", "-silent", "-o", "-Q", COQ, "SDB", "SDB.Props.%s" % res.prop], timeout=7200)
+            rc, out = sh(["coqchk", "-silent", "-o", "-Q", COQ, "SDB"] + ["SDB.Props.%s" % f2 for f2 in props_files(res.prop)], timeout=7200)
             m = re.search(r"\* Axioms:\s*(.*?)\n\s*\n", out, flags=re.S)
             axs = " ".join(m.group(1).split()) if m else "?"
+            # axioms of the standard library (brought in by Flocq / Reals for the IEEE bridge of C18) are listed and allowed; nothing else
+            axlist = [a for a in re.findall(r"[A-Za-z_][\w\.']*", axs) if a not in ("none",)] if axs not in ("<none>", "?") else []
+            foreign = [a for a in axlist if a not in ALLOWED_AXIOMS and a.split(".")[-1] not in ALLOWED_AXIOMS and not a.startswith("Coq.") ]
+            if axlist and not foreign and all((a.split(".")[-1] in ALLOWED_AXIOMS or a in ALLOWED_AXIOMS) for a in axlist):
+                axs_ok = True
+            else:
+                axs_ok = axs == "<none>"
             res.proof["coqchk"] = {"rc": rc, "axioms": axs,
                                    "no_type_in_type": "type-in-type: <none>" in out, "no_unsafe_fixpoints": "unsafe (co)fixpoints: <none>" in out, "no_assumed_positivity": "positivity is assumed: <none>" in out}
             res.proof["checker_cmd"] += " + coqchk -silent -o -Q coq SDB SDB.Props.%s" % res.prop
-            if rc != 0 or axs != "<none>" or not (res.proof["coqchk"]["no_type_in_type"] and res.proof["coqchk"]["no_unsafe_fixpoints"] and res.proof["coqchk"]["no_assumed_positivity"]):
+            if rc != 0 or not axs_ok or not (res.proof["coqchk"]["no_type_in_type"] and res.proof["coqchk"]["no_unsafe_fixpoints"] and res.proof["coqchk"]["no_assumed_positivity"]):
                 res.proof["errors"].append("coqchk does not confirm the compiled theorems (rc=%d, axioms: %s): %s" % (rc, axs, out[-400:]))
         for e in res.proof["errors"]:
             res.broken.append(e)
